@@ -127,7 +127,10 @@ def main():
     meta["suite_passes_with_change"] = not suite_failed
     meta["demo_fails_with_change"] = bool(demo_failed)
     meta["demo_passes_without_change"] = not [f for f in failed_clean if f.split("::")[-1] not in FLAKY]
-    # checks against /repo
+    # checks against /repo (one confirmation at a time: the change is applied to /repo itself)
+    import fcntl
+    lockf = open("/tmp/.seed_confirm_repo.lock", "w")
+    fcntl.flock(lockf, fcntl.LOCK_EX)
     rc, st = sh("git -C /repo status --porcelain")
     if st.strip():
         print("refusing: /repo has local changes")
